@@ -2,6 +2,8 @@ CONSTANTS
   Procs = {p1}
   MaxBinds = 1
   MaxTagSet = 6
+  NKindsSingle = 26
+  Bounds = TRUE
   NRand = 3
   NMulti = 8000
   NReqMulti = 10
